@@ -520,7 +520,16 @@ var clauseKeywords = map[string]bool{"spec": true, "axiom": true, "lemma": true,
 
 // canonKey turns "Name", "(*T).M", "(T).M", "I.M" into a key qualified by pkg, unless already qualified (contains '/').
 func canonKey(pkg, name string) string {
-	if strings.Contains(name, "/") || pkg == "" {
+	if strings.Contains(name, "/") {
+		// short repo-relative form: api/protocol.X -> <module>/pkg/api/protocol.X
+		first := strings.TrimLeft(name, "(*")
+		seg := first[:strings.Index(first, "/")]
+		if !strings.Contains(seg, ".") {
+			return strings.Replace(name, first, repoModule+"/pkg/"+first, 1)
+		}
+		return name
+	}
+	if pkg == "" {
 		return name
 	}
 	if strings.HasPrefix(name, "(*") {
